@@ -23,7 +23,11 @@ CHECK = {
            'object) seen after a program (outside and inside the sentinel) one representative prefix x every program, as two '
            'sentinels in sequence and as two programs in one try body; every depth-1 program also as the first thing a fresh Thread '
            'does; programs without sentinel run in a forked child (exit status != 0 and "Uncaught <object>" on stderr required iff the '
-           'reference says the exception escapes). states = distinct programs; transitions = judged runs (programs + chained pairs + '
+           'reference says the exception escapes). Exception objects: singleton types (thrown object == filter object), and in the '
+           'objs=struct|string|int instances VALUE objects (a user struct whose Cmp ignores a payload field, heap Strings, heap Ints) '
+           'caught through DISTINCT filter objects that are eq() to them: every handler entry records the identity of the bound object '
+           '(pointer equality with the thrown object, payload/value intact), so a handler bound to the filter object is a violation. '
+           'states = distinct programs; transitions = judged runs (programs + chained pairs + '
            'fresh-thread runs + forked runs); traces_validated = executions of a program body on the real macros; '
            'distinct_nontrivial = distinct programs in which at least one catch clause met a pending exception raised in its own try '
            'body (so the match / propagate decision was exercised)'),
@@ -32,13 +36,17 @@ CHECK = {
               'forked child; depth 2: {nop,A,B,K0} in 7 slots x 16 filter pairs x 2 shapes x 2 realisations (1.05M), 9-statement alphabet with '
               'pre/post fixed (3.8M), chaining over the {nop,A,B} space; depth 3: {nop,A,B} in 8 slots x 64 filter triples x 4 shapes x 4 '
               'realisations (6.7M); sibling sequences 1.07M; siblings inside a try 4.2M; ASan+UBSan: depth 1 full (with chaining and forks on a '
-              'shard), depth 2 and 3 and sequences on smaller alphabets'),
+              'shard), depth 2 and 3 and sequences on smaller alphabets; value-object mode (struct/String/Int thrown, distinct equal filters): '
+              'depth 1 full x3 kinds with chaining, 2916 forked, depth 2 1.05M (struct) + 200k (String), sequences 200k, ASan depth 1 + depth 2'),
     'thorough': ('depth 1 as quick; depth 2: 9-statement alphabet, pre/post in {nop,A,B} (34M), chaining over {nop,A,B,K0} with pre/post (1.05M x residual '
                  'states), 262k depth-2 programs without sentinel in forked children; depth 3: {nop,A,B,K0,K1} in 8 slots x 64 filter triples x 4 shapes x 4 '
-                 'realisations (400M), {nop,A,B} with pre/post (60M); sequences 8.5M; siblings inside a try 25M; ASan+UBSan instances of each family'),
+                 'realisations (400M), {nop,A,B} with pre/post (60M); sequences 8.5M; siblings inside a try 25M; ASan+UBSan instances of each family; '
+                 'value-object mode: depth 1 full x3 kinds (chaining, fresh threads, forks), depth 2 34M (struct) + 3.8M (String) + 3.8M (Int) + chaining, '
+                 'depth 3 67M, sequences 8.5M, siblings inside a try 4.2M, ASan depth 1 + depth 2'),
   },
   'assumptions': [
-    'exception kinds are type objects created with CelloEmpty, compared by eq (type name); thrown objects that are not types are not explored',
+    'exception kinds are either singleton type objects (CelloEmpty, eq = type name) or value objects of ONE type per instance (user struct / String / Int); '
+    'a thrown object and the filters it meets always have the same type, so eq is defined (a value thrown against a Type filter makes eq itself raise inside exception_catch - not explored, see proposed/C07-mixed-kind-filter.md)',
     'nesting depth <= 5 (far below EXCEPTION_MAX_DEPTH = 2048); one thread at a time',
     'locals of the templates are not modified inside a try body and read afterwards (setjmp rules); traces live in a shared global buffer',
     'the pending object of the record (white-box field, exception_object() is declared but not defined) is used only to classify residual states, never in a verdict',
@@ -54,6 +62,16 @@ CHECK = {
       + [X('seq', 'base', 'kind=seq', 'alpha=0124568', 'ppalpha=01')]
       + S('seqt', 'base', 4, 'kind=seqt', 'alpha=0124', 'ppalpha=0')
       + S('d3', 'base', 4, 'depth=3', 'alpha=012', 'ppalpha=0')
+      # value objects thrown, caught through distinct-but-equal filter objects (identity + payload of the bound object)
+      + [X('d1-val-struct', 'base', 'objs=struct', 'depth=1', 'alpha=' + ALL, 'ppalpha=' + ALL, 'chain=1', 'fresh=1'),
+         X('d1-val-string', 'base', 'objs=string', 'depth=1', 'alpha=' + ALL, 'ppalpha=' + ALL, 'chain=1'),
+         X('d1-val-int', 'base', 'objs=int', 'depth=1', 'alpha=' + ALL, 'ppalpha=' + ALL, 'chain=1'),
+         X('d1-val-fork', 'base', 'objs=struct', 'depth=1', 'alpha=' + ALL, 'ppalpha=012', 'main=0', 'fork=1'),
+         X('d2-val-struct', 'base', 'objs=struct', 'depth=2', 'alpha=0124', 'ppalpha=0124'),
+         X('d2-val-string', 'base', 'objs=string', 'depth=2', 'alpha=01245', 'ppalpha=0'),
+         X('seq-val', 'base', 'objs=struct', 'kind=seq', 'alpha=01246', 'ppalpha=01'),
+         X('d1-val-asan', 'asan', 'objs=struct', 'depth=1', 'alpha=' + ALL, 'ppalpha=' + ALL, 'chain=1'),
+         X('d2-val-asan', 'asan', 'objs=string', 'depth=2', 'alpha=0124', 'ppalpha=0')]
       + [X('d1-asan', 'asan', 'depth=1', 'alpha=' + ALL, 'ppalpha=' + ALL, 'chain=1'),
          X('d1-fork-asan', 'asan', 'depth=1', 'alpha=' + ALL, 'ppalpha=012', 'main=0', 'fork=1', 'shard=0/2'),
          X('d2-asan', 'asan', 'depth=2', 'alpha=0124', 'ppalpha=0'),
@@ -71,6 +89,21 @@ CHECK = {
       + S('d3-pp', 'base', 8, 'depth=3', 'alpha=012', 'ppalpha=012')
       + S('seq', 'base', 2, 'kind=seq', 'alpha=' + ALL, 'ppalpha=012')
       + S('seqt', 'base', 8, 'kind=seqt', 'alpha=01245', 'ppalpha=0')
+      + [X('d1-val-struct', 'base', 'objs=struct', 'depth=1', 'alpha=' + ALL, 'ppalpha=' + ALL, 'chain=1', 'fresh=1'),
+         X('d1-val-string', 'base', 'objs=string', 'depth=1', 'alpha=' + ALL, 'ppalpha=' + ALL, 'chain=1', 'fresh=1'),
+         X('d1-val-int', 'base', 'objs=int', 'depth=1', 'alpha=' + ALL, 'ppalpha=' + ALL, 'chain=1', 'fresh=1')]
+      + S('d1-val-fork', 'base', 4, 'objs=struct', 'depth=1', 'alpha=' + ALL, 'ppalpha=' + ALL, 'main=0', 'fork=1')
+      + S('d1-val-fork-string', 'base', 2, 'objs=string', 'depth=1', 'alpha=' + ALL, 'ppalpha=012', 'main=0', 'fork=1')
+      + S('d2-val-struct', 'base', 8, 'objs=struct', 'depth=2', 'alpha=' + ALL, 'ppalpha=012')
+      + S('d2-val-string', 'base', 2, 'objs=string', 'depth=2', 'alpha=' + ALL, 'ppalpha=0')
+      + S('d2-val-int', 'base', 2, 'objs=int', 'depth=2', 'alpha=' + ALL, 'ppalpha=0')
+      + S('d2-val-chain', 'base', 2, 'objs=struct', 'depth=2', 'alpha=0124', 'ppalpha=01', 'chain=1')
+      + S('d3-val', 'base', 8, 'objs=struct', 'depth=3', 'alpha=0124', 'ppalpha=0')
+      + S('seq-val', 'base', 2, 'objs=struct', 'kind=seq', 'alpha=' + ALL, 'ppalpha=012')
+      + S('seqt-val', 'base', 4, 'objs=struct', 'kind=seqt', 'alpha=0124', 'ppalpha=0')
+      + [X('d1-val-asan', 'asan', 'objs=struct', 'depth=1', 'alpha=' + ALL, 'ppalpha=' + ALL, 'chain=1', 'fresh=1'),
+         X('d1-val-fork-asan', 'asan', 'objs=struct', 'depth=1', 'alpha=' + ALL, 'ppalpha=012', 'main=0', 'fork=1', 'shard=0/2')]
+      + S('d2-val-asan', 'asan', 2, 'objs=string', 'depth=2', 'alpha=' + ALL, 'ppalpha=0')
       + [X('d1-asan', 'asan', 'depth=1', 'alpha=' + ALL, 'ppalpha=' + ALL, 'chain=1', 'fresh=1')]
       + S('d1-fork-asan', 'asan', 4, 'depth=1', 'alpha=' + ALL, 'ppalpha=012', 'main=0', 'fork=1')
       + S('d2-asan', 'asan', 2, 'depth=2', 'alpha=' + ALL, 'ppalpha=0')
